@@ -174,6 +174,67 @@ def shared_tables(tree, known_globals):
     return out
 
 
+def _pure_literal(v):
+    if isinstance(v, ast.Constant) and isinstance(v.value, (int, float, str, bytes)) and not isinstance(v.value, bool):
+        return True
+    if isinstance(v, ast.UnaryOp) and isinstance(v.op, ast.USub) and isinstance(v.operand, ast.Constant) and isinstance(v.operand.value, (int, float)):
+        return True
+    if isinstance(v, ast.Tuple) and v.elts:
+        return all(_pure_literal(e) for e in v.elts)
+    return False
+
+
+def inline_new_constants(tree, known_globals):
+    """a new module-level or class-level name bound once to a literal (number, string, tuple of those) and only ever
+    read is the literal: magic numbers that were given a name get their value back where they are used"""
+    cands = []
+    for st in tree.body:
+        if isinstance(st, ast.Assign) and len(st.targets) == 1 and isinstance(st.targets[0], ast.Name) and st.targets[0].id not in known_globals and _pure_literal(st.value):
+            cands.append(({st.targets[0].id}, st.targets[0], st.value, st.targets[0].id, None))
+        elif isinstance(st, ast.ClassDef):
+            for s_ in st.body:
+                if isinstance(s_, ast.Assign) and len(s_.targets) == 1 and isinstance(s_.targets[0], ast.Name) and "%s.%s" % (st.name, s_.targets[0].id) not in known_globals \
+                        and _pure_literal(s_.value):
+                    n_ = s_.targets[0].id
+                    cands.append(({"%s.%s" % (st.name, n_), "self.%s" % n_, "cls.%s" % n_}, s_.targets[0], s_.value, n_, st))
+    if not cands:
+        return 0
+    par = _parents(tree)
+    done = 0
+    for texts, defining, value, bare, cls in cands:
+        stores = [n for n in ast.walk(tree) if isinstance(n, ast.Name) and n.id == bare and isinstance(n.ctx, (ast.Store, ast.Del))]
+        attr_st = [n for n in ast.walk(tree) if isinstance(n, ast.Attribute) and n.attr == bare and isinstance(n.ctx, (ast.Store, ast.Del))]
+        if len(stores) != 1 or attr_st or any(isinstance(n, ast.Constant) and n.value == bare for n in ast.walk(tree)):
+            continue
+        if any(isinstance(n, ast.Global) and bare in n.names for n in ast.walk(tree)):
+            continue
+        if cls is None:
+            # a function parameter or local of the same name would shadow it: refused above by the single store; parameters:
+            if any(isinstance(n, ast.arg) and n.arg == bare for n in ast.walk(tree)):
+                continue
+            uses = [n for n in ast.walk(tree) if isinstance(n, ast.Name) and n.id == bare and isinstance(n.ctx, ast.Load)]
+        else:
+            uses = [n for n in ast.walk(tree) if isinstance(n, ast.Attribute) and isinstance(n.ctx, ast.Load) and _text(n) in texts]
+            uses += [n for s_ in cls.body if not isinstance(s_, _SCOPES) for n in ast.walk(s_) if isinstance(n, ast.Name) and n.id == bare and isinstance(n.ctx, ast.Load)]
+            # subclasses of the class in this module reading it through self are covered by the spelling self.<name>
+        for u in uses:
+            p = par.get(id(u))
+            if p is None:
+                continue
+            new = copy.deepcopy(value)
+            for x in ast.walk(new):
+                ast.copy_location(x, u)
+            for fld, val in ast.iter_fields(p):
+                if val is u:
+                    setattr(p, fld, new)
+                elif isinstance(val, list):
+                    for i, x in enumerate(val):
+                        if x is u:
+                            val[i] = new
+            done += 1
+    return done
+
+
 # ---------------------------------------------------------------------------------------------- lookups
 
 def _lookup(node, tables):
@@ -498,6 +559,7 @@ def expand_new_tables(tree, modname, reference, qualnames_fn, getattr_rewrite=No
         return 0
     known_globals = set(ref["__globals__"])
     cons = ref.get("__constructs__", {})
+    n_const = inline_new_constants(tree, known_globals)
     shared = shared_tables(tree, known_globals)
     # names that are never None: functions, classes, imports of the module; methods
     defs = set()
@@ -558,7 +620,7 @@ def expand_new_tables(tree, modname, reference, qualnames_fn, getattr_rewrite=No
             return stable(e.value) and e.attr not in attr_stores
         return False
 
-    count = 0
+    count = n_const
     for q, fn in qualnames_fn(tree):
         if q not in known_fns:
             continue
